@@ -520,13 +520,24 @@ class MasterWorld:
         self._hook(self.master_client, 'flush', '/')
         before = self.master_writes
         sid = self.master_sid
-        self.run_step(step, event)
+        self.step_died = False
+        try:
+            self.run_step(step, event)
+        except Exception as exc:  # pylint: disable=broad-except
+            from mc import statex
+            if statex.impl_site(exc.__traceback__) == 'harness':
+                raise
+            # the master dies by itself at the end of what it wrote: one more
+            # cut point (after its last write)
+            self.step_died = True
+        extra = 1 if self.step_died else 0
         if step == 'restart':
             # all writes of the new session belong to the step
-            return sum(1 for e in self.tree.log if e[0] == self.master_sid)
+            return sum(1 for e in self.tree.log
+                       if e[0] == self.master_sid) + extra
         self._hook(self.master_client, 'flush', '/')
         assert sid == self.master_sid
-        return self.master_writes - before
+        return self.master_writes - before + extra
 
     def run_step(self, step, event=None):
         if step == 'event':
@@ -592,15 +603,27 @@ class MasterWorld:
         self.cycle()
 
     def _crashing(self, fn):
+        """True if the step was cut (injected crash) or the master died in it
+        by an exception of its own (exit_on_unhandled): either way the stored
+        state is what a newly elected master finds."""
+        from mc import statex
         saved = self.monitors
+        saved_cell = self.cellmonitors
         self.monitors = []          # the interrupted step has no "after"
+        self.cellmonitors = []
         try:
             fn()
             return False
         except fakezk.Crash:
             return True
+        except Exception as exc:  # pylint: disable=broad-except
+            if statex.impl_site(exc.__traceback__) == 'harness':
+                raise
+            self.stats['c10_master_died_in_step'] += 1
+            return True
         finally:
             self.monitors = saved
+            self.cellmonitors = saved_cell
 
     # -- menu ---------------------------------------------------------------
     def enabled(self):
